@@ -476,6 +476,16 @@ impl Cred {
             parts.push(format!("extra={}", extra.join("+")));
         }
         let algs = if cur.algs.is_some() { "algs-offered" } else { "no-algs" };
+        // C13 cares about replaced-not-duplicated and about the VALUES of the credential
+        // attributes that are present, not about which ones are required in which state
+        let value_wrong: Vec<&String> = wrong.iter().filter(|x| !x.contains("does-not-verify")).collect();
+        if self.on(M_C13) && !self.on(M_C08) && (!value_wrong.is_empty() || !extra.is_empty()) {
+            ctx.violation(
+                &format!("c13:long-term-credential-attributes:wrong={}:extra={}", value_wrong.iter().map(|x| x.as_str()).collect::<Vec<_>>().join("+"), extra.join("+")),
+                format!("credential attributes of an emitted request do not carry the mechanism's values: {}", parts.join(" ")),
+                wit(),
+            );
+        }
         self.v(
             ctx,
             M_C08,
